@@ -29,6 +29,11 @@ ASSUMPTIONS = [
     "only uses grid values, what float(text) does to a report tag is abstracted to missing / unparsable / grid value",
     "ClOrdIDs and other copied text are lists of code points; status / ExecType / MsgType values are strings "
     "(enum members compare and hash by value); the int 0 'ExecType omitted' marker is a string that is no table key",
+    "OPTIONAL TAGS: the reference exchange of the theorems always echoes Price / OrderQty; reports delivered without the "
+    "optional tags (Price / OrderQty absent where the order does not read them or where the replace left them unchanged, "
+    "LastQty / LastPx present or absent, AvgPx 0) are covered by the correspondence (the model reads absent tags branch for "
+    "branch) and the oracle; the constructor's ord_type (every FOrdType value, member or str), side (every FOrdSide value), "
+    "account (str, or a dict: set_account asserts – compared with the model's raising-hook branch) are configuration of the cases",
     "reports are flat messages (no repeating groups, no error-class tag values); constructor arguments ticker / side / "
     "ord_type / account are str; price / qty (constructor and replace_req arguments) are Python floats or ints – the "
     "numeric TYPE is a Python-only dimension (the model's numbers are grid integers): both types are generated, an "
@@ -140,13 +145,17 @@ def link_tok(out: str, L: R.Link) -> str:
     return "%s | %s | %d %d | %s" % (out, order_tok(R.order_obs(L.order)), len(L.c2e), len(L.e2c), exch_tok(L.ex))
 
 
-def action_line(a: list) -> str:
+def action_line(a: list, case=None) -> str:
     k = a[0]
+    if k == "cNew" and case is not None and isinstance(case.get("cfg", DEFAULT_CFG)[3], dict):
+        return "oo.actf raises cNew"   # set_account() asserts a str account: the model's raising-hook branch
     if k == "feed":
         r = a[1]
         return "oo.feed " + report_tok(r).replace(":", " ")
     if k == "cReplace":
         return "oo.act cReplace %s %s" % (oint(a[1]), oint(a[2]))
+    if k == "cRecvOmit":
+        return "oo.recvomit %d" % a[1]
     if k in ("hNew", "hCancel"):
         return "oo.actf %s c%s" % (a[1], k[1:])
     if k == "hReplace":
@@ -159,6 +168,7 @@ DEFAULT_CFG = ["TICK", "1", "2", "ACC"]   # ticker, side, ord_type, account
 
 def init_line(case: dict) -> str:
     t, sd, ot, ac = case.get("cfg", DEFAULT_CFG)
+    ac = ac if isinstance(ac, str) else "DICT"
     return "oo.init %s %d %d %s %s %s %s" % (u(case["root"]), case["price"], case["qty"], u(t), u(sd), u(ot), u(ac))
 
 
@@ -198,7 +208,7 @@ def run_impl(case: dict, monitor=None):
 
 
 def model_lines(case: dict) -> list:
-    return [init_line(case)] + [action_line(a) for a in case["actions"]]
+    return [init_line(case)] + [action_line(a, case) for a in case["actions"]]
 
 
 # ---------------------------------------------------------------------------------------------
@@ -214,17 +224,25 @@ DECISIONS = ["accept", "reject", "pend"]
 BIG_PRICES = [8 * 25_000_000_000, 8 * 10**10 + 1, 8 * 10**12 + 3, 2**49 - 9, 2**48 + 1, 8 * 999_999_999_999 + 7]
 BIG_QTYS = [8 * 10**9, 8 * 10**12, 2**49 - 16, 2**47 + 5]
 TICKERS = ["TICK", "EUR/USD", "ÖL-1", "A B", "7"]
-SIDES = ["1", "2", "5"]
-ORD_TYPES = ["2", "1", "4"]
-ACCOUNTS = ["ACC", "000000", "dépôt"]
+SIDES = ["1", "2", "3", "4", "5", "6", "7", "8", "9", "A", "B", "C", "D", "E", "F", "G"]          # every FOrdSide value
+ORD_TYPES = ["2", "1", "3", "4", "6", "7", "8", "9", "D", "E", "G", "I", "J", "K", "L", "M", "P"]   # every FOrdType value
+ACCOUNTS = ["ACC", "000000", "dépôt", {"1": "ACC"}]                                                 # str, or a dict (set_account asserts)
 
 
 def rand_config(rng):
+    c = _rand_config(rng)
+    if isinstance(c["cfg"][3], dict):
+        c["subclass"] = False   # new_req() cannot succeed with a dict account; no hook variants on top of that
+    return c
+
+
+def _rand_config(rng):
     """CONFIGURATION: Python types of price / qty / replace arguments, enum members or plain strings for side and
     order type, instrument / account text"""
     return {"ptype": rng.choice(["float", "int"]), "qtype": rng.choice(["float", "int"]), "argint": rng.random() < 0.5,
             "enums": rng.random() < 0.5, "subclass": rng.random() < 0.5,
-            "cfg": [rng.choice(TICKERS), rng.choice(SIDES), rng.choice(ORD_TYPES), rng.choice(ACCOUNTS)]}
+            "cfg": [rng.choice(TICKERS), rng.choice(SIDES), rng.choice(ORD_TYPES + ["2"] * 6),
+                    rng.choice(ACCOUNTS if rng.random() < 0.2 else ACCOUNTS[:3])]}
 
 
 def rand_case(rng, maxlen=25, odd_roots=True):
@@ -248,7 +266,7 @@ def rand_action(rng, L, first=False):
         return ["cNew"]
     enabled = []
     if L.e2c:
-        enabled += [["cRecv"]] * 6
+        enabled += [["cRecv"]] * 4 + [["cRecvOmit", safe_mask(L)]] * 2
     if L.c2e:
         enabled += [["xRecv", rng.choice(DECISIONS)]] * 5
     if ex.pending is not None:
@@ -280,6 +298,19 @@ def rand_action(rng, L, first=False):
         ["cNew"], ["cCancel"], rand_replace(rng, L), ["cRecv"], ["xRecv", rng.choice(DECISIONS)],
         ["xDecide", rng.choice(DECISIONS)], ["xAck"], ["xRejNew"],
         ["xFill", rng.choice([-1, 0, 1, 8, 1000]), 80], ["xExpire"], ["xSuspend"], ["xResume"]])
+
+
+def safe_mask(L):
+    """OPTIONAL TAGS: which of Price (1) / OrderQty (2) the exchange may leave out of the next report without
+    withholding information: any on reports where the order does not read them, on a Replaced report those
+    that the replace did not change"""
+    if not L.e2c:
+        return 3
+    r = L.e2c[0]
+    if r["35"] != "8" or r.get("150") != "5":
+        return 3
+    ob = R.order_obs(L.order)
+    return (1 if r.get("44") == ob["price"] else 0) | (2 if r.get("38") == ob["qty"] else 0)
 
 
 HOOK_MODES = ["raises", "raises", "bumps", "reenters"]
@@ -519,7 +550,7 @@ def bfs_alphabet(L):
     P0, Q0 = getattr(L, "P0", 80), getattr(L, "Q0", 24)
     return [
         ["cNew"], ["cCancel"], ["cReplace", P0 + 1 if ob_price(L) == P0 else P0, None],
-        ["cReplace", None, Q0 - 8 if ob_qty(L) == Q0 else Q0], ["cRecv"],
+        ["cReplace", None, Q0 - 8 if ob_qty(L) == Q0 else Q0], ["cRecv"], ["cRecvOmit", safe_mask(L)],
         ["xRecv", "accept"], ["xRecv", "reject"], ["xRecv", "pend"], ["xDecide", "accept"], ["xDecide", "reject"],
         ["xAck"], ["xFill", 5, 80], ["xFill", 13, 80], ["xFill", lv if lv > 0 else 1, 81], ["xExpire"], ["xSuspend"],
         ["xResume"],
@@ -720,7 +751,7 @@ def bfs(ctx, drv, dis, depth, budget_s, case=None):
     finally:
         live.close()
     return {"depth": done_depth, "states": len(seen), "transitions": transitions, "complete": done_depth == depth,
-            "alphabet": 17, "seconds": round(time.time() - t0, 1)}
+            "alphabet": 18, "seconds": round(time.time() - t0, 1)}
 
 
 # ---------------------------------------------------------------------------------------------
@@ -772,6 +803,8 @@ class Monitor:
         o = L.order
         ob = R.order_obs(o)
         a0 = a
+        if a[0] == "cRecvOmit":
+            a = ["cRecv"]
         if a[0] in ("hNew", "hCancel", "hReplace"):   # builder with a misbehaving hook: judged like the plain builder
             if res[0] == "raise" and res[1] == "Hook":
                 self.hook_fault = True
